@@ -934,13 +934,16 @@ fn parents(
 ) -> Vec<anyhow::Result<SignedEntry>> {
     let mut res = Vec::new();
 
-    while !key.is_empty() {
-        let entry = get_exact(table, namespace, author, &key, false);
-        key.pop();
-        match entry {
+    // Check the key itself and all of its prefixes, down to and including the empty key. Deletion
+    // markers count as well: a newer deletion of a prefix supersedes older entries below it.
+    loop {
+        match get_exact(table, namespace, author, &key, true) {
             Err(err) => res.push(Err(err)),
             Ok(Some(entry)) => res.push(Ok(entry)),
-            Ok(None) => continue,
+            Ok(None) => {}
+        }
+        if key.pop().is_none() {
+            break;
         }
     }
     res.reverse();
